@@ -57,7 +57,8 @@ def render(spec, pads_for=None):
     v_items = []
     if spec.steer_in_v:
         v_items.append(("VERS", "", spec.version, "CWLS LOG ASCII STANDARD"))
-        v_items.append(("WRAP", "", spec.wrap, "wrap mode"))
+        if spec.wrap is not None:
+            v_items.append(("WRAP", "", spec.wrap, "wrap mode"))
         if spec.dlm:
             v_items.append(("DLM", "", spec.dlm, "delimiter"))
     blocks = [("V", spec.titles["V"], body("V", itemlines(v_items)))]
